@@ -77,6 +77,13 @@ def cases(rng, tier, shard, nshards):
             pts, meta = gen.curve(rng, nmax=600, nmin=150)     # size-dependent behaviour also in the quick tier
         else:
             pts, meta = gen.curve(rng, nmax=80)
+        if rng.random() < 0.03:
+            # huge / tiny magnitudes (the property quantifies over them): distances and products over- or underflow
+            pts = pts * 10.0 ** float(pick(rng, [150, 155, 160, -160, -165, -170]))
+            if not (np.all(np.isfinite(pts)) and np.all(np.diff(pts[:, 0]) > 0)):
+                pts, meta = gen.curve(rng, nmax=80)
+            else:
+                meta = dict(meta, family=meta['family'] + '+extreme-magnitude')
         n = len(pts)
         c = {'points': pts, 'family': meta['family'], 'layout': gen.pick_layout(rng, pts)}
         cfg = {}
